@@ -20,7 +20,16 @@ class LoadAfterStorePass(BlockPass):
     """
 
     def find_store_backwards(
-        self, i, ty, stop_on=(ir.FunctionCall, ir.ProcedureCall, ir.Store)
+        self,
+        i,
+        ty,
+        stop_on=(
+            ir.FunctionCall,
+            ir.ProcedureCall,
+            ir.Store,
+            ir.CopyBlob,
+            ir.InlineAsm,
+        ),
     ):
         """Go back from this instruction to beginning"""
         block = i.block
@@ -79,7 +88,14 @@ class LoadAfterStorePass(BlockPass):
             store_prev = self.find_store_backwards(
                 store,
                 store.value.ty,
-                stop_on=(ir.FunctionCall, ir.ProcedureCall, ir.Store, ir.Load),
+                stop_on=(
+                    ir.FunctionCall,
+                    ir.ProcedureCall,
+                    ir.Store,
+                    ir.Load,
+                    ir.CopyBlob,
+                    ir.InlineAsm,
+                ),
             )
             if store_prev is not None and not store_prev.volatile:
                 store_prev.remove_from_block()
